@@ -88,6 +88,9 @@ class Bad(Exception):
 
 # owner -> {len(content): content}: earlier messages of the family, of other shapes (seeded so that the order in which
 # workers happen to receive cases does not matter)
+_LONG_PH = None
+ADDR2 = ("10.0.0.9", 40001)
+ADDR3 = ("10.0.0.77", 10022)
 _PREV = {
     "PackCommand": {len(x): x for x in (wire.spack_set(201, 6, 62, 59, 0x1234, 2, 0xBEEF), wire.spack_set(202, 6, 62, 59, 0x0102, 1, 7),
                                         wire.spack_key(203, 6, 9))},
@@ -119,6 +122,16 @@ def check_packet(h, ref_content, owner, decode, parms=PARMS):
     ph.handle(sb, ADDR)
     if ph.parms != (ADDR[0], ADDR[1], parms[3], parms[2]) or ph.packet_content != ref_content:
         raise Bad(("framing", "handle() did not yield (sender, src, dst) and the content"))
+    # the packet handler is long-lived (one per socket): the same identifiers arriving from ANOTHER address right after
+    # (a client that restarted on a new port) must yield that datagram's own sender
+    global _LONG_PH
+    if _LONG_PH is None:
+        _LONG_PH = D.GeckoPacketProtocolHandler()
+    for addr in (ADDR2, ADDR, ADDR3):
+        _LONG_PH.handle(sb, addr)
+        if _LONG_PH.parms != (addr[0], addr[1], parms[3], parms[2]) or _LONG_PH.packet_content != ref_content:
+            raise Bad(("reply-address", f"long-lived packet handler: datagram from {addr} yields sender {_LONG_PH.parms[:2]} "
+                                        f"(ids {_LONG_PH.parms[2:]}) after the same identifiers arrived from another address"))
     # a reply built from the received parms goes back with source and destination swapped
     reply = D.GeckoPacketProtocolHandler(content=b"X", parms=ph.parms)
     if reply.send_bytes != wire.frame(parms[2], parms[3], b"X"):
